@@ -22,6 +22,7 @@ import (
 	"strings"
 
 	xh2 "golang.org/x/net/http2"
+	xhpack "golang.org/x/net/http2/hpack"
 	mh2 "mosn.io/mosn/pkg/module/http2"
 	"mosn.io/pkg/buffer"
 	"verif/harness/hx"
@@ -464,8 +465,123 @@ func (s *h10Gen) writeSweep() {
 	}
 }
 
+// ---------------------------------------------------------------------------------------------------------
+// the frames MServerConn / MClientConn write in line (SETTINGS ack, PING ack, GOAWAY, RST_STREAM; MClientConn.WritePing)
+//
+//	fpay i <server|client> <ev,ev,…>   events: ping:<8 octets> (the peer's PING), set:<id>=<val> (the peer's SETTINGS),
+//	                                   open:<sid> (server: a GET on that stream), shutdown (server: GracefulShutdown), push
+//	                                   (server: a PUSH_PROMISE frame, a connection error), data:<sid> (server: DATA on the
+//	                                   half-closed stream, a stream error), wping:<ack>:<8 octets> (client: WritePing);
+//	                                   output: the octets MOSN wrote after each event
+
+func (s *h10Gen) inlineCase(side string, evs []string) {
+	fc := newFakeConn()
+	ctx := context.Background()
+	var sc *mh2.MServerConn
+	var cc *mh2.MClientConn
+	var fr *mh2.MFramer
+	if side == "server" {
+		sc = mh2.NewServerConn(fc)
+		sc.Init()
+		fr = sc.Framer
+	} else {
+		cc = mh2.NewClientConn(fc)
+		cc.WriteInitFrame()
+		fr = cc.Framer
+	}
+	fc.take()
+	var hbuf bytes.Buffer
+	henc := xhpack.NewEncoder(&hbuf)
+	feed := func(write func(x *xh2.Framer)) {
+		var wire bytes.Buffer
+		xf := xh2.NewFramer(&wire, nil)
+		xf.AllowIllegalWrites = true
+		write(xf)
+		data := buffer.NewIoBufferBytes(wire.Bytes())
+		hx.Safe(func() {
+			for data.Len() > 0 {
+				f, _, err := fr.ReadFrame(ctx, data, 0)
+				if err != nil {
+					return
+				}
+				if sc != nil {
+					sc.HandleFrame(ctx, f)
+				} else {
+					cc.HandleFrame(ctx, f)
+				}
+			}
+		})
+	}
+	var outs []string
+	for _, ev := range evs {
+		p := strings.Split(ev, ":")
+		switch p[0] {
+		case "ping":
+			var d [8]byte
+			copy(d[:], hx.Unhex(p[1]))
+			feed(func(x *xh2.Framer) { x.WritePing(false, d) })
+		case "set":
+			var id, val uint32
+			fmt.Sscanf(p[1], "%d=%d", &id, &val)
+			feed(func(x *xh2.Framer) { x.WriteSettings(xh2.Setting{ID: xh2.SettingID(id), Val: val}) })
+		case "open":
+			var sid uint32
+			fmt.Sscanf(p[1], "%d", &sid)
+			hbuf.Reset()
+			for _, kv := range [][2]string{{":method", "GET"}, {":scheme", "http"}, {":authority", "peer"}, {":path", "/c18"}} {
+				henc.WriteField(xhpack.HeaderField{Name: kv[0], Value: kv[1]})
+			}
+			block := append([]byte(nil), hbuf.Bytes()...)
+			feed(func(x *xh2.Framer) {
+				x.WriteHeaders(xh2.HeadersFrameParam{StreamID: sid, BlockFragment: block, EndStream: true, EndHeaders: true})
+			})
+		case "shutdown":
+			sc.GracefulShutdown()
+		case "push":
+			feed(func(x *xh2.Framer) { x.WritePushPromise(xh2.PushPromiseParam{StreamID: 1, PromiseID: 2, EndHeaders: true}) })
+		case "data":
+			var sid uint32
+			fmt.Sscanf(p[1], "%d", &sid)
+			feed(func(x *xh2.Framer) { x.WriteData(sid, false, []byte{1, 2, 3}) })
+		case "wping":
+			var d [8]byte
+			copy(d[:], hx.Unhex(p[2]))
+			cc.WritePing(p[1] == "1", d)
+		}
+		var recs []string
+		for _, r := range fc.take() {
+			recs = append(recs, hx.Hex(r))
+		}
+		outs = append(outs, orDash(strings.Join(recs, "+")))
+	}
+	s.c.Emit("C18", fmt.Sprintf("fpay i %s %s", side, strings.Join(evs, ",")), strings.Join(outs, ","))
+	s.c.Count("fpay.i." + side + "." + strings.Split(evs[len(evs)-1], ":")[0])
+}
+
+func (s *h10Gen) inlineSweep() {
+	r := s.c.Rng
+	m := s.c.N(12, 300)
+	for k := 0; k < m; k++ {
+		d := hx.Hex(r.Bytes(8))
+		sid := uint32(1 + 2*r.Intn(2000))
+		set := fmt.Sprintf("set:%d=%d", []int{1, 3, 4, 5, 6}[r.Intn(5)], []int{4096, 100, 65535, 16384, 1 << 20}[r.Intn(5)])
+		s.inlineCase("server", []string{"ping:" + d})
+		s.inlineCase("server", []string{set})
+		s.inlineCase("server", []string{"shutdown"})
+		s.inlineCase("server", []string{"push"})
+		s.inlineCase("server", []string{fmt.Sprintf("open:%d", sid), "shutdown"})
+		s.inlineCase("server", []string{fmt.Sprintf("open:%d", sid), "push"})
+		s.inlineCase("server", []string{fmt.Sprintf("open:%d", sid), fmt.Sprintf("data:%d", sid)})
+		s.inlineCase("server", []string{fmt.Sprintf("open:%d", sid), "ping:" + d, set})
+		s.inlineCase("client", []string{"ping:" + d})
+		s.inlineCase("client", []string{set})
+		s.inlineCase("client", []string{"wping:" + b01(r.Bool()) + ":" + d, "ping:" + d})
+	}
+}
+
 func runFramePayloads(c *hx.Ctx) {
 	s := &h10Gen{c: c}
 	s.parseSweep()
 	s.writeSweep()
+	s.inlineSweep()
 }
